@@ -143,6 +143,9 @@ def classify(o):
 def run_subprocess(d, run):
     env = dict(os.environ)
     env.pop("PYTHONDONTWRITEBYTECODE", None)
+    env.pop("SOURCE_DATE_EPOCH", None)
+    if run.get("source_date_epoch"):
+        env["SOURCE_DATE_EPOCH"] = run["source_date_epoch"]  # reproducible-build environments export it; it changes nothing here
     r = subprocess.run([sys.executable, "-W", "ignore", "-c", RUNNER, json.dumps({"dir": d, "hooks": run["hooks"], "order": run["order"], "after": run.get("after", []), "dont_write": run.get("dont_write", False), "disabled": run.get("disabled", False), "lazy_spy": run.get("lazy_spy", False), "edit_during": run.get("_edit_during")})],
                        capture_output=True, text=True, env=env, timeout=300)
     line = [l for l in r.stdout.splitlines() if l.startswith("VF18")]
@@ -163,6 +166,9 @@ def run_inprocess(d, run):
     Typechecker.lookup.clear()
     importlib.invalidate_caches()
     old_flag = sys.dont_write_bytecode
+    old_sde = os.environ.pop("SOURCE_DATE_EPOCH", None)
+    if run.get("source_date_epoch"):
+        os.environ["SOURCE_DATE_EPOCH"] = run["source_date_epoch"]
     sys.dont_write_bytecode = bool(run.get("dont_write"))  # like python -B: nothing is written, caches are still read
     sys.path.insert(0, d)
     import importlib._bootstrap_external as _be
@@ -232,6 +238,9 @@ def run_inprocess(d, run):
         _be.FileLoader.get_data = _orig_get_data
         jaxtyping.config.update("jaxtyping_disable", False)
         sys.dont_write_bytecode = old_flag
+        os.environ.pop("SOURCE_DATE_EPOCH", None)
+        if old_sde is not None:
+            os.environ["SOURCE_DATE_EPOCH"] = old_sde
         sys.path.remove(d)
         for name in list(sys.modules):
             if name.split(".")[0] in ("pa", "pb", "pkg", "vf_spy18", "ph"):
@@ -289,6 +298,8 @@ def check_history(ctx, hist, mode):
         flags = set()
         ever_damaged = [False]  # a cut-off cache file stays on disk until that module is compiled again
         for ri, run in enumerate(hist["runs"]):
+            if run.get("source_date_epoch"):
+                flags.add("run-with-SOURCE_DATE_EPOCH")
             if run.get("edit"):
                 m = run["edit"]
                 versions[m] += 1
@@ -353,7 +364,7 @@ def check_history(ctx, hist, mode):
                     continue  # saved while being imported: whether this very run already sees the new version depends on what it read last
                 if g["version"] != ver or g["const"] != ver:
                     raise Violation("stale-source", hist, f"{where}: executes source version {g['version']}/{g['const']}, current is {ver}")
-        ctx.note([hist, mode], len(hist["runs"]) >= 2 and bool(flags), classes=sorted(flags) + [f"mode-{mode}", f"runs-{len(hist['runs'])}"], sample={"runs": hist["runs"], "mode": mode})
+        ctx.note([hist, mode], len(hist["runs"]) >= 2 and bool(flags - {"run-with-SOURCE_DATE_EPOCH"}), classes=sorted(flags) + [f"mode-{mode}", f"runs-{len(hist['runs'])}"], sample={"runs": hist["runs"], "mode": mode})
     finally:
         shutil.rmtree(d, ignore_errors=True)
 
@@ -371,6 +382,7 @@ run_st = st.fixed_dictionaries({
     "hooks": st.lists(hook_st, min_size=0, max_size=2),
     "order": st.lists(st.sampled_from(MODS + [BAD]), min_size=1, max_size=4, unique=True),
     "after": st.lists(st.sampled_from(MODS), max_size=2, unique=True),
+    "source_date_epoch": st.sampled_from([None, "315532800", None, None]),
 })
 _free_hist_st = st.fixed_dictionaries({"runs": st.lists(run_st, min_size=2, max_size=5), "same_size": st.sampled_from([False, True, False])})
 
@@ -382,7 +394,7 @@ def _template_hist(draw):
     m = draw(st.sampled_from(["pa", "pb", "pkg.sub", "ph"]))
     ck = draw(st.sampled_from(["a", "b", "none"]))
     base = {"edit": None, "same_mtime": False, "damage": None, "dont_write": False, "disabled": False, "lazy_spy": draw(st.booleans()), "edit_during": None,
-            "hooks": [[[m], ck]], "order": [m], "after": []}
+            "hooks": [[[m], ck]], "order": [m], "after": [], "source_date_epoch": draw(st.sampled_from(["315532800", None]))}
     same_size = draw(st.booleans())  # True: the size is kept and the mtime moves; False: the mtime is kept and the size changes
     second = dict(base, edit=m, same_mtime=not same_size)
     runs = [base, second] + draw(st.lists(run_st, max_size=2))
